@@ -53,6 +53,21 @@ func (d *c11Driver) do(ev w.Event) {
 	var out *w.StepOut
 	if len(mine) > 0 {
 		out = w.StepWithFault(d.t, d.sc, d.s, ev, c11FaultFn(mine))
+		fired := false
+		for _, call := range out.Log {
+			if call.Fault != "" {
+				fired = true
+			}
+		}
+		if fired {
+			d.run.Count("faults_injected", 1)
+		} else {
+			d.run.Count("faults_not_injected", 1)
+			if len(d.faults) == 1 {
+				fmt.Printf("HARNESS ERROR: single fault %+v did not fire (calls: %v)\n", mine[0], w.CallStrings(out.Log))
+				exit(2)
+			}
+		}
 	} else {
 		out = w.Step(d.t, d.sc, d.s, ev)
 	}
@@ -83,7 +98,7 @@ func (d *c11Driver) do(ev w.Event) {
 }
 
 func (d *c11Driver) round() bool {
-	before := d.s.Key()
+	before := c11Normal(d.s) + fmt.Sprint(len(d.s.Pods()))
 	for _, p := range d.s.Pods() {
 		if p.DeletionTimestamp != nil {
 			d.do(w.Event{K: "gone", A: p.Namespace + "/" + p.Name})
@@ -103,7 +118,7 @@ func (d *c11Driver) round() bool {
 	for _, x := range d.s.Settings() {
 		d.do(w.Event{K: "R_set", A: x.Namespace + "/" + x.Name})
 	}
-	changed := d.s.Key() != before
+	changed := c11Normal(d.s)+fmt.Sprint(len(d.s.Pods())) != before
 	d.do(w.Event{K: "tick", N: 10})
 	return changed
 }
@@ -138,7 +153,7 @@ func (d *c11Driver) drive(c c11Scenario) {
 			}
 		}
 		quiet := 0
-		for r := 0; r < 40 && quiet < 2; r++ {
+		for r := 0; r < 40 && quiet < 3; r++ {
 			if d.round() {
 				quiet = 0
 			} else {
